@@ -203,6 +203,8 @@ func runC14(c *an.Ctx) {
 	r1417(c, "R14.17")
 	r063as(c, "R14.23") // a masked Pull never prunes the register: the in-place Filter is only given fresh messages (shared with R06.3)
 	c.Min("R14.23", 1)
+	shareAs(c, "R01.1", "R14.24", r011, nil) // a rejected Update leaves Get unchanged: validation comes before the write (shared with R01.1)
+	c.Min("R14.24", 4)
 	r1421(c, "R14.21")
 	c.Min("R14.21", 2)
 	rWriteOptsForwarded(c, "R14.22", "pkg/trait") // the caller's write options reach the register's write (shared with R19.8)
